@@ -136,6 +136,12 @@ def run(ctx):
     _c01.r01_7_replace_total(ctx)
     _c10.r10_1_assignment(ctx)  # a program within the 256-slot limit is accepted
     _c17.r17_1_walk(ctx)  # a program without read-before-write is not rejected by the definite-assignment walk
+    _c01.r01_4e_flatten_traces(ctx)  # flattening a well-formed block list raises nothing (shared with C01)
+    _c01.r01_6e_normalize(ctx)  # nor does normalisation of a well-formed graph
+    from rules import c12 as _c12, c03 as _c03
+
+    _c12.r12_1_sites(ctx)  # the constants pass accepts every legal mix of literals, templates and named constants (shared with C12)
+    _c03.r03_1_skip_set(ctx)  # a compilation is not rejected because of what an earlier compilation left on a reused options object (shared with C03)
     return (
         "Exception-escape obligations (asserts and non-PyTeal raises in compile-time code) against a frozen, individually justified table; recursion along block successors; "
         "no structural block comparison on the compile path; the graph-rewrite invariants and acceptance of legal programs by the slot allocator and the definite-assignment walk "
